@@ -43,7 +43,7 @@ Depths(csv) == {csv - 1, csv, csv + 1}
 \* seq = -1 encodes a sequence outside 0..65535 (disabled / time based / garbage).
 ValidAt(e, depth) == /\ e.eng
                      /\ e.nin = 1
-                     /\ e.ver >= 2
+                     /\ e.txver >= 2
                      /\ e.seq >= 0
                      /\ depth >= e.seq
 
